@@ -180,9 +180,14 @@ def gen_species(rng, tier, focus):
     return ref, tgt, scale, info, n_res
 
 
-def rigid(rng):
+def rigid(rng, positions=None):
     R = gen.random_rotation(rng)
     t = gen.rvec(rng, rng.choice([0.0, 1.0, 30.0]))
+    if positions is not None and rng.random() < 0.3:
+        # a rotation about an axis through one reference atom: that atom (often an anchor) stays where it was
+        # while its frame neighbours move
+        p = np.array(positions[rng.randrange(len(positions))], dtype=float)
+        t = (p - R @ p).tolist()
     return {"R": R.tolist(), "t": t}
 
 
@@ -207,9 +212,11 @@ def gen_ops(rng, tier, focus, ref, tgt, info, n_res):
         "C01": {"construction": 6, "rigid": 2, "deformed": 1, "one_moved": 0, "other": 1, "repeat": 1, "reject": 1, "mutate": 2},
         "C02": {"construction": 2, "rigid": 8, "deformed": 1, "one_moved": 0, "other": 1, "repeat": 1, "reject": 1, "mutate": 1},
         "C03": {"construction": 1, "rigid": 1, "deformed": 5, "one_moved": 6, "other": 1, "repeat": 1, "reject": 1, "mutate": 1},
-        "C04": {"construction": 2, "rigid": 3, "deformed": 3, "one_moved": 1, "other": 3, "repeat": 3, "reject": 4, "mutate": 5},
+        "C04": {"construction": 2, "rigid": 3, "deformed": 3, "one_moved": 1, "other": 3, "repeat": 3, "reject": 4, "mutate": 5,
+                "construction_object": 3},
         "C17": {"construction": 3, "rigid": 5, "deformed": 3, "one_moved": 1, "other": 1, "repeat": 0, "reject": 0, "mutate": 0},
     }[focus]
+    weights.setdefault("construction_object", 1 if focus != "C17" else 0)
     kinds = list(weights)
     ops = []
     n_calls = 0
@@ -220,7 +227,7 @@ def gen_ops(rng, tier, focus, ref, tgt, info, n_res):
             n_calls += 1
         elif k == "rigid":
             op = {"op": "call", "conf": "rigid"}
-            op.update(rigid(rng))
+            op.update(rigid(rng, ref["positions"]))
             ops.append(op)
             n_calls += 1
         elif k == "deformed":
@@ -229,7 +236,7 @@ def gen_ops(rng, tier, focus, ref, tgt, info, n_res):
                 continue
             op = {"op": "call", "conf": "deformed", "positions": new}
             if rng.random() < 0.5:
-                op.update(rigid(rng))
+                op.update(rigid(rng, new))
             ops.append(op)
             n_calls += 1
         elif k == "one_moved":
@@ -259,6 +266,9 @@ def gen_ops(rng, tier, focus, ref, tgt, info, n_res):
             op.update(rigid(rng))
             ops.append(op)
             n_calls += 1
+        elif k == "construction_object":
+            ops.append({"op": "call", "conf": "construction_object"})
+            n_calls += 1
         elif k == "repeat":
             calls = [i for i, o in enumerate(ops) if o["op"] == "call"]
             if calls:
@@ -276,7 +286,7 @@ def gen_ops(rng, tier, focus, ref, tgt, info, n_res):
     # a history always ends with calls, so that rejections / mutations are followed by evidence of a usable map
     ops.append({"op": "call", "conf": "construction"})
     op = {"op": "call", "conf": "rigid"}
-    op.update(rigid(rng))
+    op.update(rigid(rng, ref["positions"]))
     ops.append(op)
     return ops
 
@@ -342,7 +352,8 @@ def simplify(trace):
 # execution
 # --------------------------------------------------------------------------
 
-PROP_OF_CONF = {"construction": "C01", "rigid": "C02", "deformed": "C03", "one_moved": "C03", "other_instance": "C04"}
+PROP_OF_CONF = {"construction": "C01", "rigid": "C02", "deformed": "C03", "one_moved": "C03", "other_instance": "C04",
+                "construction_object": "C04"}
 
 
 def snap(mol):
@@ -542,6 +553,8 @@ def _execute(trace, ctx, ref_spec, tgt_spec, scale, n, m, ref_pos0, tgt_pos0):
         ctx.probe("collinear_reference")
 
     def conf_positions(op):
+        if op["conf"] == "construction_object":
+            return np.array(ref_live.atoms_positions, dtype=float)      # wherever the harness' mutations left it
         if op["conf"] == "construction":
             pos = ref_pos0.copy()
         elif op["conf"] == "rigid":
@@ -559,7 +572,11 @@ def _execute(trace, ctx, ref_spec, tgt_spec, scale, n, m, ref_pos0, tgt_pos0):
         pos = conf_positions(op)
         own = op["conf"] == "other_instance"
         vel = [[0.1 * k, 0.2, -0.3] for k in range(n)] if op.get("velocities") else None
-        arg = ref_instance(pos, gro_resids=_expand_resids(ref_spec, op.get("gro_resids")), velocities=vel, own_top=own)
+        if op["conf"] == "construction_object":
+            arg = ref_live           # the very object the map was built from
+            ctx.probe("called_on_construction_object")
+        else:
+            arg = ref_instance(pos, gro_resids=_expand_resids(ref_spec, op.get("gro_resids")), velocities=vel, own_top=own)
         arg_snap = snap(arg)
         before_ret = [snap(r[0]) for r in returned]
         try:
